@@ -1,391 +1,71 @@
-//! Bounded native stand-in for the BTOR2 line parser and writer (flussab-btor2 parser.rs / btor2.rs), which the
-//! deductive machinery cannot reach (DESIGN.md 0.4). It runs the REAL crates from the working tree on every input of a
-//! stated finite set under several read schedules and checks the runtime form of the properties. It is exhaustive
-//! inside its bound, reports concrete failing inputs, and is never counted as a proof.
-use std::cell::Cell;
-use std::io::{self, Read};
-use std::panic::{catch_unwind, AssertUnwindSafe};
-use std::rc::Rc;
+//! Bounded native stand-ins (DESIGN.md 0.4): the REAL crates of the working tree run on every input of a stated finite
+//! set, under several read schedules and injected faults, against the runtime form of the properties. Exhaustive inside
+//! the stated bound, reports concrete failing inputs that replay on the real code, and is never counted as a proof.
+mod common;
+mod aiger;
+mod dimacs;
+mod fmt;
+mod mem;
+mod reader;
+mod renum;
+mod scan;
+mod writer;
 
-use flussab::text::LineReader;
-use flussab::{DeferredReader, DeferredWriter};
-use flussab_btor2::{Config, InnerParseError, Parser};
+use common::*;
 
-struct Src {
-    data: Vec<u8>,
-    pos: usize,
-    step: usize,
-    fail_at: Option<usize>,
-    delivered: Rc<Cell<usize>>,
-}
-impl Read for Src {
-    fn read(&mut self, buf: &mut [u8]) -> io::Result<usize> {
-        let limit = self.fail_at.unwrap_or(self.data.len()).min(self.data.len());
-        if self.pos >= limit {
-            if self.fail_at.is_some() {
-                return Err(io::Error::new(io::ErrorKind::Other, "injected failure"));
-            }
-            return Ok(0);
-        }
-        let n = self.step.min(buf.len()).min(limit - self.pos);
-        buf[..n].copy_from_slice(&self.data[self.pos..self.pos + n]);
-        self.pos += n;
-        self.delivered.set(self.pos);
-        Ok(n)
-    }
-}
+#[global_allocator]
+static A: Counting = Counting;
 
-#[derive(Clone, PartialEq, Eq, Debug)]
-enum End {
-    Clean,
-    Syntax { line: usize, column: usize },
-    Io,
-    Panic(String),
-}
-#[derive(Clone, PartialEq, Eq, Debug)]
-struct Outcome {
-    items: Vec<String>,
-    delivered_at_item: Vec<usize>,
-    written: Vec<Vec<u8>>,
-    end: End,
-}
-
-fn run(input: &[u8], chunk: usize, step: usize, fail_at: Option<usize>) -> Outcome {
-    let delivered = Rc::new(Cell::new(0));
-    let d2 = delivered.clone();
-    let r = catch_unwind(AssertUnwindSafe(|| {
-        let src = Src { data: input.to_vec(), pos: 0, step, fail_at, delivered: d2 };
-        let mut reader = DeferredReader::from_read(src);
-        reader.set_chunk_size(chunk);
-        let mut items = vec![];
-        let mut at = vec![];
-        let mut written = vec![];
-        let mut parser = match Parser::new(LineReader::new(reader), Config::default()) {
-            Ok(p) => p,
-            Err(_) => return Outcome { items, delivered_at_item: at, written, end: End::Io },
-        };
-        let end;
-        loop {
-            match parser.next_line() {
-                Ok(Some(line)) => {
-                    items.push(format!("{:?}", line));
-                    at.push(delivered.get());
-                    let mut out = vec![];
-                    {
-                        let mut w = DeferredWriter::from_write(&mut out);
-                        line.write_into(&mut w);
-                        w.flush_defer_err();
-                    }
-                    written.push(out);
-                }
-                Ok(None) => {
-                    end = End::Clean;
-                    break;
-                }
-                Err(e) => {
-                    end = match *e {
-                        InnerParseError::SyntaxError(s) => End::Syntax { line: s.location.line, column: s.location.column },
-                        InnerParseError::IoError(_) => End::Io,
-                    };
-                    break;
-                }
-            }
-            if items.len() > 64 {
-                end = End::Panic("more items than input bytes".into());
-                break;
-            }
-        }
-        Outcome { items, delivered_at_item: at, written, end }
-    }));
-    match r {
-        Ok(o) => o,
-        Err(p) => {
-            let msg = p.downcast_ref::<String>().cloned().or_else(|| p.downcast_ref::<&str>().map(|s| s.to_string())).unwrap_or_default();
-            Outcome { items: vec![], delivered_at_item: vec![], written: vec![], end: End::Panic(msg) }
-        }
+fn kind_of(k: &str) -> &'static str {
+    match k {
+        "cnf" => "cnf",
+        "wcnf" => "wcnf",
+        _ => "gcnf",
     }
 }
-
-// ---- independent oracle pieces
-/// end offsets (exclusive, after the newline or at the end of data) of the lines that carry an item, in order
-fn item_line_ends(input: &[u8]) -> Vec<usize> {
-    let mut out = vec![];
-    let mut i = 0;
-    while i < input.len() {
-        // skip blanks between items (the parser skips spaces and newlines)
-        while i < input.len() && (input[i] == b' ' || input[i] == b'\n') {
-            i += 1;
-        }
-        if i >= input.len() {
-            break;
-        }
-        while i < input.len() && input[i] != b'\n' {
-            i += 1;
-        }
-        if i < input.len() {
-            i += 1;
-        }
-        out.push(i);
-    }
-    out
-}
-fn line_lengths(input: &[u8]) -> Vec<usize> {
-    input.split(|&b| b == b'\n').map(|l| l.len()).collect()
-}
-
-#[derive(Debug)]
-struct Failure {
-    check: &'static str,
-    input: Vec<u8>,
-    chunk: usize,
-    step: usize,
-    fail_at: Option<usize>,
-    detail: String,
-}
-
-fn check_input(input: &[u8], which: &str, failures: &mut Vec<Failure>, runs: &mut u64) {
-    let base = run(input, 16384, 1 << 20, None);
-    *runs += 1;
-    let fail = |failures: &mut Vec<Failure>, check, chunk, step, fail_at, detail: String| {
-        if failures.len() < 40 {
-            failures.push(Failure { check, input: input.to_vec(), chunk, step, fail_at, detail });
-        }
-    };
-    // C05: no panic, on any schedule
-    if which == "C05" || which == "all" {
-        if let End::Panic(m) = &base.end {
-            fail(failures, "C05 no panic", 16384, 1 << 20, None, m.clone());
-        }
-    }
-    let schedules: [(usize, usize); 4] = [(1, 1), (2, 3), (3, 2), (7, 1 << 20)];
-    for &(chunk, step) in schedules.iter() {
-        let o = run(input, chunk, step, None);
-        *runs += 1;
-        if which == "C05" || which == "all" {
-            if let End::Panic(m) = &o.end {
-                fail(failures, "C05 no panic", chunk, step, None, m.clone());
-            }
-        }
-        // C01: items, end and error location do not depend on how the bytes arrive
-        if (which == "C01" || which == "all") && (o.items != base.items || o.end != base.end) {
-            fail(failures, "C01 same result for every read schedule", chunk, step, None, format!("one-shot: {:?} {:?}; this schedule: {:?} {:?}", base.items, base.end, o.items, o.end));
-        }
-    }
-    // C08: a syntax error points into the input: 1 <= line <= lines + 1, 1 <= column <= length of that line + 1
-    if which == "C08" || which == "all" {
-        if let End::Syntax { line, column } = base.end {
-            let ll = line_lengths(input);
-            let ok = line >= 1 && line <= ll.len() && column >= 1 && column <= ll[line - 1] + 1;
-            if !ok {
-                fail(failures, "C08 error location inside the input", 16384, 1 << 20, None, format!("reported {}:{}, line lengths {:?}", line, column, ll));
-            }
-        }
-    }
-    // C03: every parsed line, written and parsed again, is the same line (and a clean end follows)
-    if which == "C03" || which == "all" {
-        for (k, w) in base.written.iter().enumerate() {
-            let again = run(w, 16384, 1 << 20, None);
-            *runs += 1;
-            if again.items.len() != 1 || again.items[0] != base.items[k] || again.end != End::Clean {
-                fail(failures, "C03 parse(write(parse(t))) == parse(t)", 16384, 1 << 20, None, format!("item {:?} written as {:?} parses as {:?} {:?}", base.items[k], String::from_utf8_lossy(w), again.items, again.end));
-            }
-        }
-    }
-    // C09: with one byte per read, an item is handed out before anything past its own line was requested
-    if which == "C09" || which == "all" {
-        let o = run(input, 1, 1, None);
-        *runs += 1;
-        let ends = item_line_ends(input);
-        for (k, &d) in o.delivered_at_item.iter().enumerate() {
-            if k < ends.len() && d > ends[k] {
-                fail(failures, "C09 no read past the line of the item", 1, 1, None, format!("item {} ({}) was returned after {} bytes had been delivered; its line ends at offset {}", k, o.items[k], d, ends[k]));
-            }
-        }
-    }
-    // C04: a source that fails after k bytes: never a clean end; a syntax error only if the fault-free prefix run has the same one
-    if which == "C04" || which == "all" {
-        for k in 0..=input.len() {
-            for &(chunk, step) in [(16384usize, 1usize << 20), (1, 1)].iter() {
-                let o = run(input, chunk, step, Some(k));
-                *runs += 1;
-                match &o.end {
-                    End::Io => {}
-                    End::Clean => fail(failures, "C04 a failing source never gives a clean end", chunk, step, Some(k), format!("items {:?}", o.items)),
-                    End::Syntax { .. } => {
-                        // legitimate only if the error lies in the delivered prefix: the full fault-free run reports the same
-                        // error after the same items, and it could be decided from the first k bytes alone
-                        let p = run(&input[..k], chunk, step, None);
-                        *runs += 1;
-                        let same_full = base.end == o.end && base.items.len() >= o.items.len() && base.items[..o.items.len()] == o.items[..];
-                        let same_prefix_run = p.end == o.end;
-                        if !(same_full || same_prefix_run) {
-                            fail(failures, "C04 no syntax error caused by the failure", chunk, step, Some(k), format!("with fault: {:?} {:?}; fault-free: {:?} {:?}", o.items, o.end, base.items, base.end));
-                        }
-                    }
-                    End::Panic(m) => fail(failures, "C05 no panic", chunk, step, Some(k), m.clone()),
-                }
-                // items handed out before the failure are items of the fault-free run
-                if o.items.len() > base.items.len() || o.items[..] != base.items[..o.items.len()] {
-                    // a truncated last line may legitimately parse differently only if it ends in an error; items must be a prefix
-                    fail(failures, "C04 items before the failure are the fault-free items", chunk, step, Some(k), format!("with fault: {:?}; fault-free: {:?}", o.items, base.items));
-                }
-            }
-        }
-    }
-}
-
-const TOKENS: &[&str] = &[
-    "1", "2", "3", "10", "0", "-1", " ", " ", "\n", "sort", "bitvec", "array", "input", "state", "init", "next", "bad", "constraint", "output", "fair",
-    "justice", "add", "not", "ite", "slice", "uext", "const", "constd", "consth", "one", "ones", "zero", "101", "ff", "name", ";", "; c", "x", "eq", "concat",
-    // lane boundaries of the 8-byte lowercase kernel: bytes next to `a`..`z`, upper case, runs of 7, 8 and 9 letters
-    "az", "a`", "z{", "aZ", "abcdefg", "abcdefgh", "abcdefghi", "sort{", "inpuT",
-];
-const DOCS: &[&str] = &[
-    "1 sort bitvec 1\n2 input 1 a ; comment\n3 state 1\n4 init 1 3 2\n5 next 1 3 2\n6 bad 2\n7 constraint 2\n",
-    "1 sort bitvec 8\n2 sort array 1 1\n3 const 1 101\n4 constd 1 10\n5 consth 1 ff\n6 one 1\n7 ones 1\n8 zero 1\n",
-    "1 sort bitvec 4\n2 input 1\n3 not 1 2\n4 add 1 2 3\n5 ite 1 2 3 4\n6 slice 1 2 3 0\n7 uext 1 2 4 sym\n8 justice 2 2 3\n9 fair 2\n10 output 2\n",
-    "; only a comment\n\n  \n1 sort bitvec 1\n",
-    "1 sort bitvec 1",
-    "1 sort bitvec 1 ; no newline",
-    "99999999999999999999999 sort bitvec 1\n",
-    "1 sort bitvec 99999999999999999999999\n",
-    "1 eq 1 2 3\n2 concat 1 2 3 name\n",
-];
 
 fn main() {
     let args: Vec<String> = std::env::args().collect();
-    let which = args.get(1).map(|s| s.as_str()).unwrap_or("all").to_string();
-    let tier = args.get(2).map(|s| s.as_str()).unwrap_or("quick").to_string();
-    let seed: u64 = args.get(3).and_then(|s| s.parse().ok()).unwrap_or(1);
     std::panic::set_hook(Box::new(|_| {}));
-    if which == "--replay" {
-        // --replay <hex input> <chunk> <step> <fail_at or -> : prints the outcome of one run
-        let input: Vec<u8> = (0..args[2].len() / 2).map(|i| u8::from_str_radix(&args[2][2 * i..2 * i + 2], 16).unwrap()).collect();
-        let chunk: usize = args[3].parse().unwrap();
-        let step: usize = args[4].parse().unwrap();
-        let fail_at = args.get(5).and_then(|s| s.parse().ok());
-        println!("input {:?}", String::from_utf8_lossy(&input));
-        println!("this schedule: {:?}", run(&input, chunk, step, fail_at));
-        println!("one-shot, no fault: {:?}", run(&input, 16384, 1 << 20, None));
-        // re-evaluate the checks of the property on this one input
-        let prop = args.get(6).cloned().unwrap_or("all".into());
-        let mut failures = vec![];
-        let mut runs = 0u64;
-        check_input(&input, &prop, &mut failures, &mut runs);
-        for f in &failures {
-            println!("FAILS {}: chunk {} step {} fault {:?}: {}", f.check, f.chunk, f.step, f.fail_at, f.detail);
-        }
-        std::process::exit(if failures.is_empty() { 0 } else { 1 });
-    }
-    let mut failures = vec![];
-    let mut runs = 0u64;
-    let mut inputs: Vec<Vec<u8>> = vec![];
-    // (a) every sequence of up to N tokens
-    let n = if tier == "thorough" { 4 } else { 3 };
-    let mut idx = vec![0usize; 0];
-    loop {
-        let mut s = Vec::new();
-        for &i in &idx {
-            s.extend_from_slice(TOKENS[i].as_bytes());
-            s.push(b' ');
-        }
-        inputs.push(s.clone());
-        if let Some(last) = s.last_mut() {
-            *last = b'\n';
-            inputs.push(s);
-        }
-        // next index vector (odometer, shorter sequences first)
-        let mut k = idx.len();
-        loop {
-            if k == 0 {
-                idx = vec![0; idx.len() + 1];
-                break;
+    // vp-standin <suite> <prop> <tier> <seed>          |  vp-standin --replay <suite> <prop> <args...>
+    if args.get(1).map(|s| s.as_str()) == Some("--replay") {
+        REPLAY_MODE.store(1, std::sync::atomic::Ordering::Relaxed);
+        let suite = args[2].as_str();
+        let prop = args[3].as_str();
+        let rest = &args[4..];
+        let code = match suite.split_once(':') {
+            Some(("fmt", f)) => fmt::replay(f, prop, rest),
+            Some(("dimacs", k)) => dimacs::replay(kind_of(k), prop, rest),
+            Some(("aiger", k)) => aiger::replay(k, prop, rest),
+            _ if suite == "reader" => reader::replay(prop, rest),
+            _ if suite == "writer" => writer::replay(prop, rest),
+            _ if suite == "scan" => scan::replay(prop, rest),
+            _ if suite == "mem" => mem::replay(prop, rest),
+            _ if suite == "renumber" => renum::replay(prop, rest),
+            _ => {
+                println!("unknown suite {}", suite);
+                2
             }
-            k -= 1;
-            if idx[k] + 1 < TOKENS.len() {
-                idx[k] += 1;
-                for j in k + 1..idx.len() {
-                    idx[j] = 0;
-                }
-                break;
-            }
-        }
-        if idx.len() > n {
-            break;
-        }
+        };
+        std::process::exit(code);
     }
-    // (b) curated documents, every prefix, and every single-byte substitution from a small byte set
-    for d in DOCS {
-        let b = d.as_bytes();
-        for k in 0..=b.len() {
-            inputs.push(b[..k].to_vec());
+    let suite = args.get(1).cloned().unwrap_or_default();
+    let prop = args.get(2).cloned().unwrap_or("all".into());
+    let tier = args.get(3).cloned().unwrap_or("quick".into());
+    let seed: u64 = args.get(4).and_then(|s| s.parse().ok()).unwrap_or(1);
+    let rep = match suite.split_once(':') {
+        Some(("fmt", f)) => fmt::suite(f, &prop, &tier, seed),
+        Some(("dimacs", k)) => dimacs::suite(kind_of(k), &prop, &tier, seed),
+        Some(("aiger", k)) => aiger::suite(k, &prop, &tier, seed),
+        _ if suite == "reader" => reader::suite(&prop, &tier, seed),
+        _ if suite == "writer" => writer::suite(&prop, &tier, seed),
+        _ if suite == "scan" => scan::suite(&prop, &tier, seed),
+        _ if suite == "mem" => mem::suite(&prop, &tier, seed),
+        _ if suite == "renumber" => renum::suite(&prop, &tier, seed),
+        _ => {
+            eprintln!("unknown suite {}", suite);
+            std::process::exit(2);
         }
-        for i in 0..b.len() {
-            for &c in [b' ', b'\n', b'0', b'9', b'a', b';', 0xffu8].iter() {
-                let mut m = b.to_vec();
-                m[i] = c;
-                inputs.push(m);
-            }
-        }
-    }
-    // (c) seeded pseudo-random token sequences
-    let mut x = seed.wrapping_mul(0x9E3779B97F4A7C15) | 1;
-    let mut rnd = || {
-        x ^= x << 13;
-        x ^= x >> 7;
-        x ^= x << 17;
-        x
     };
-    let extra = if tier == "thorough" { 20000 } else { 2000 };
-    for _ in 0..extra {
-        let len = 1 + (rnd() % 14) as usize;
-        let mut s = Vec::new();
-        for _ in 0..len {
-            s.extend_from_slice(TOKENS[(rnd() % TOKENS.len() as u64) as usize].as_bytes());
-            if rnd() % 4 != 0 {
-                s.push(b' ');
-            }
-        }
-        if rnd() % 2 == 0 {
-            s.push(b'\n');
-        }
-        inputs.push(s);
-    }
-    let total = inputs.len();
-    inputs.sort();
-    inputs.dedup();
-    let mut nontrivial = 0u64;
-    for inp in &inputs {
-        if inp.iter().any(|&b| b != b' ' && b != b'\n') {
-            nontrivial += 1;
-        }
-        check_input(inp, &which, &mut failures, &mut runs);
-    }
-    let fj: Vec<String> = failures
-        .iter()
-        .map(|f| {
-            format!(
-                "{{\"check\":{:?},\"input_hex\":\"{}\",\"input\":{:?},\"chunk\":{},\"step\":{},\"fail_at\":{},\"detail\":{:?}}}",
-                f.check,
-                f.input.iter().map(|b| format!("{:02x}", b)).collect::<String>(),
-                String::from_utf8_lossy(&f.input),
-                f.chunk,
-                f.step,
-                f.fail_at.map(|k| k.to_string()).unwrap_or("null".into()),
-                f.detail
-            )
-        })
-        .collect();
-    println!(
-        "{{\"generated\":{},\"distinct_inputs\":{},\"distinct_nontrivial\":{},\"parser_runs\":{},\"bound\":\"token sequences of length <= {} over {} tokens (with and without final newline), {} curated documents with all prefixes and single-byte substitutions, {} seeded random token sequences; schedules (chunk,step) (16384,all) (1,1) (2,3) (3,2) (7,all); fault at every offset for C04\",\"failures\":[{}]}}",
-        total,
-        inputs.len(),
-        nontrivial,
-        runs,
-        n,
-        TOKENS.len(),
-        DOCS.len(),
-        extra,
-        fj.join(",")
-    );
+    println!("{}", rep.to_json());
 }
